@@ -17,9 +17,12 @@ Definition has_orule (n : name) : bool := match find_orule G n with Some _ => tr
 
 Definition prim_range (lo hi : N) : prog := PPrim (MMatchRange lo hi).
 
-(* parse_rule: the hard-coded names first, then the user rules, then the Unicode properties *)
+(* parse_rule: the rules of the grammar first (fix: commit `pest_vm ignored user rules named like its hard-coded built-ins`),
+   then the hard-coded names, then the Unicode properties *)
 Definition vm_call (n : name) : prog :=
-  if str_eqb n (nm "ANY") then PPrim (MSkip 1)
+  (* `_ if self.rules.contains_key(rule) => ()`: a rule of the grammar shadows a hard-coded built-in *)
+  if has_orule n then PCall (orule_id n)
+  else if str_eqb n (nm "ANY") then PPrim (MSkip 1)
   else if str_eqb n (nm "EOI") then PRule (orule_id (nm "EOI")) (PPrim MEoi)
   else if str_eqb n (nm "SOI") then PPrim MSoi
   else if str_eqb n (nm "PEEK") then PPrim MStackPeek
